@@ -49,7 +49,8 @@ def globals_part(run):
     from vp.symonnx import scripts as S
     import numpy as np
     res = {}
-    src = S.HEADER + "K = 2.0\nAX = [0]\n@script(default_opset=op)\ndef f(x: FLOAT[2]) -> FLOAT[2]:\n    return x * K + op.ReduceSum(x, AX, keepdims=1)\n"
+    src = (S.HEADER + "import numpy as np\nK = 2.0\nAX = [0]\nW = np.array([1.0, 2.0], dtype=np.float32)\n@script(default_opset=op)\n"
+           "def f(x: FLOAT[2]) -> FLOAT[2]:\n    return x * K + op.ReduceSum(x, AX, keepdims=1) + op.Add(x, W)\n")
     mod = S.load_source(src, "c14g")
     f = mod.f
     p1 = f.to_model_proto().SerializeToString(deterministic=True)
@@ -60,7 +61,9 @@ def globals_part(run):
     x = np.array([1.0, 2.0], dtype=np.float32)
     e1 = np.asarray(f(x)).tolist()
     mod.K = 5.0
+    mod.AX.append(1)      # in-place mutation of a list global
     mod.AX = [-1]
+    mod.W[0] = 100.0      # in-place mutation of a NumPy array global
     p3 = f.to_model_proto().SerializeToString(deterministic=True)
     res["proto_independent_of_global_rebinding"] = (p1 == p3)
     e2 = np.asarray(f(x)).tolist()
